@@ -285,6 +285,18 @@ carquet_status_t carquet_read_data_page_v1(
         num_values = (int32_t)max_values;
     }
 
+    /* Levels are decoded as the length-prefixed RLE/bit-packed hybrid. The
+     * deprecated BIT_PACKED level encoding (fixed width, no length prefix) is
+     * not implemented: refuse it instead of reading its bytes as RLE. */
+    if ((reader->max_rep_level > 0 &&
+         header->repetition_level_encoding != CARQUET_ENCODING_RLE) ||
+        (reader->max_def_level > 0 &&
+         header->definition_level_encoding != CARQUET_ENCODING_RLE)) {
+        CARQUET_SET_ERROR(error, CARQUET_ERROR_NOT_IMPLEMENTED,
+            "Unsupported level encoding (only RLE is implemented)");
+        return CARQUET_ERROR_NOT_IMPLEMENTED;
+    }
+
     /* Decode repetition levels if needed */
     if (reader->max_rep_level > 0 && rep_levels) {
         /* Read 4-byte length prefix */
